@@ -19,14 +19,22 @@ typedef struct S_struct___mpq_struct MPQ;
 #define P2(k) (((i128)1) << (k))
 /* number of significant limbs and magnitude of an mpz (limbs beyond |_mp_size| are garbage and never read) */
 static inline uint32_t m_n(const MPZ *m){ int32_t s = (int32_t)m->f1; return s < 0 ? (uint32_t)0 - (uint32_t)s : (uint32_t)s; }
-#ifdef __cplusplus
+#if defined(__cplusplus)
 /* native (real GMP): only the significant limbs exist */
 static inline u128 m_mag(const MPZ *m){ uint32_t n = m_n(m); u128 v = 0; if (n >= 1) v = m->f2[0]; if (n >= 2) v |= (u128)m->f2[1] << 64; return v; }
 static inline uint64_t m_top(const MPZ *m){ uint32_t n = m_n(m); return n == 0 ? 1 : m->f2[n - 1]; }
 #else
-/* model: the limb array always has 2 limbs; both are read, only the significant ones are used */
-static inline u128 m_mag(const MPZ *m){ uint32_t n = m_n(m); uint64_t d0 = m->f2[0], d1 = m->f2[1]; return n == 0 ? (u128)0 : (n == 1 ? (u128)d0 : (((u128)d1 << 64) | d0)); }
-static inline uint64_t m_top(const MPZ *m){ uint32_t n = m_n(m); uint64_t d0 = m->f2[0], d1 = m->f2[1]; return n == 0 ? 1 : (n == 1 ? d0 : d1); }
+/* model: two limbs; both are read, only the significant ones are used.  Heap representation: the 2-limb array _mp_d points
+ * to; -DGM_FLAT (composite functions, see models/gmpmodel.c): limb 0 in the bits of the _mp_d field, limb 1 in _mp_alloc */
+#ifdef GM_FLAT
+#define M_D0(m) ((uint64_t)(m)->f2)
+#define M_D1(m) ((uint64_t)(m)->f0)
+#else
+#define M_D0(m) ((m)->f2[0])
+#define M_D1(m) ((m)->f2[1])
+#endif
+static inline u128 m_mag(const MPZ *m){ uint32_t n = m_n(m); uint64_t d0 = M_D0(m), d1 = M_D1(m); return n == 0 ? (u128)0 : (n == 1 ? (u128)d0 : (((u128)d1 << 64) | d0)); }
+static inline uint64_t m_top(const MPZ *m){ uint32_t n = m_n(m); uint64_t d0 = M_D0(m), d1 = M_D1(m); return n == 0 ? 1 : (n == 1 ? d0 : d1); }
 #endif
 /* the mathematical integer denoted by an mpz with at most 2 limbs and magnitude below 2^127 */
 static inline i128 m_val(const MPZ *m){ return (int32_t)m->f1 < 0 ? -(i128)m_mag(m) : (i128)m_mag(m); }
@@ -34,7 +42,11 @@ static inline i128 m_val(const MPZ *m){ return (int32_t)m->f1 < 0 ? -(i128)m_mag
  * 2 allocated; lim bounds the magnitude */
 static inline bool m_ok(const MPZ *m, i128 lim){
   uint32_t n = m_n(m);
+#if defined(GM_FLAT) && !defined(__cplusplus)
+  return n <= NLIMB && m_top(m) != 0 && m_mag(m) < (u128)lim; }
+#else
   return n <= NLIMB && (int32_t)m->f0 >= NLIMB && m_top(m) != 0 && m_mag(m) < (u128)lim; }
+#endif
 /* the same value from the three scalars (used with __CPROVER_old, which cannot wrap a function call) */
 static inline i128 v3(uint32_t size, uint64_t d0, uint64_t d1){
   int32_t s = (int32_t)size; uint32_t n = s < 0 ? (uint32_t)0 - (uint32_t)s : (uint32_t)s;
@@ -42,9 +54,15 @@ static inline i128 v3(uint32_t size, uint64_t d0, uint64_t d1){
   return s < 0 ? -(i128)v : (i128)v; }
 #define ZV(z) m_val(MP(z))
 #define Z_OK(z, lim) m_ok(MP(z), lim)
-#define ZLIM P2(126)              /* range of the GMP model: results */
-#define ZB P2(125)                /* default bound of inputs of linear operations */
+#ifdef GM_FLAT
+#define ZBITS 94
+#define ZMULB P2(46)              /* inputs of multiplications */
+#else
+#define ZBITS 126
 #define ZMULB P2(63)              /* inputs of multiplications */
+#endif
+#define ZLIM P2(ZBITS)            /* range of the GMP model: results */
+#define ZB P2(ZBITS - 1)          /* default bound of inputs of linear operations */
 #define I64MIN (-P2(63))
 #define I64MAX (P2(63) - 1)
 static inline bool fits64(i128 v){ return v >= I64MIN && v <= I64MAX; }
@@ -68,6 +86,35 @@ static inline i128 s_cdiv(i128 a, i128 b){ i128 q = GM_tdiv(a, b), r = GM_trem(a
 static inline i128 s_fshr(i128 v, uint64_t k){ return k >= 127 ? (v < 0 ? (i128)-1 : (i128)0) : (v < 0 ? ~((~v) >> k) : (v >> k)); }
 /* v * 2^k for k < 126 and |v| < 2^(126-k) */
 static inline i128 s_shl(i128 v, uint64_t k){ return v < 0 ? -(i128)((u128)(-v) << k) : (i128)((u128)v << k); }
+/* ---- rationals: canonical form, canonical representative and canonical results of + - * / (op 0..3): the symbols of
+ * models/gmpmodel.c (uninterpreted with axioms); natively they are computed exactly */
+#ifdef __cplusplus
+static inline i128 s_abs(i128 a){ return a < 0 ? -a : a; }
+static inline i128 s_gcd(i128 a, i128 b){ a = s_abs(a); b = s_abs(b); while (b) { i128 t = a % b; a = b; b = t; } return a; }
+static inline bool GM_coprime(i128 n, i128 d){ return s_gcd(n, d) == 1; }
+static inline bool GM_canon(i128 n, i128 d){ return d > 0 && GM_coprime(n, d); }
+static inline i128 GM_cann(i128 n, i128 d){ i128 g = s_gcd(n, d); return (d < 0 ? -n : n) / g; }
+static inline i128 GM_cand(i128 n, i128 d){ i128 g = s_gcd(n, d); return s_abs(d) / g; }
+static inline void s_qop(int op, i128 an, i128 ad, i128 bn, i128 bd, i128 *rn, i128 *rd){
+  i128 n, d;
+  if (op == 0) { n = an * bd + bn * ad; d = ad * bd; } else if (op == 1) { n = an * bd - bn * ad; d = ad * bd; }
+  else if (op == 2) { n = an * bn; d = ad * bd; } else { n = an * bd; d = ad * bn; }
+  *rn = GM_cann(n, d); *rd = GM_cand(n, d); }
+static inline i128 GM_qopn(int op, i128 an, i128 ad, i128 bn, i128 bd){ i128 n, d; s_qop(op, an, ad, bn, bd, &n, &d); return n; }
+static inline i128 GM_qopd(int op, i128 an, i128 ad, i128 bn, i128 bd){ i128 n, d; s_qop(op, an, ad, bn, bd, &n, &d); return d; }
+#else
+bool GM_coprime(i128 n, i128 d); bool GM_canon(i128 n, i128 d);
+i128 GM_cann(i128 n, i128 d); i128 GM_cand(i128 n, i128 d);
+i128 GM_qopn(int op, i128 an, i128 ad, i128 bn, i128 bd); i128 GM_qopd(int op, i128 an, i128 ad, i128 bn, i128 bd);
+#endif
+#define QN(q) m_val(QNUM(q))
+#define QD(q) m_val(QDEN(q))
+#define Q_OK(q, lim) (m_ok(QNUM(q), lim) && m_ok(QDEN(q), lim))
+#define Q_CANON(q) GM_canon(QN(q), QD(q))
+#define QB P2(31)                 /* bound of numerators and denominators of rational operands */
+/* a/b < c/d for positive denominators: a*d < c*b */
+static inline bool s_qlt(i128 an, i128 ad, i128 bn, i128 bd){ return GM_mul(an, bd) < GM_mul(bn, ad); }
+static inline bool s_qeq(i128 an, i128 ad, i128 bn, i128 bd){ return GM_mul(an, bd) == GM_mul(bn, ad); }
 /* smallest 2^k - 1 >= x, for x > 0 */
 static inline i128 s_fill(i128 x){ i128 y = x; y |= y >> 1; y |= y >> 2; y |= y >> 4; y |= y >> 8; y |= y >> 16; y |= y >> 32; y |= y >> 64; return y; }
 #endif
